@@ -448,7 +448,8 @@ class C12(PropCheck):
         sec = tolerant_section(
             run, 'flex-doc',
             'rendered flex containers of 1..8 empty items (row/column, reverse, wrap, gaps, every justify-content / '
-            'align-items / align-content, flex-basis/grow/shrink/order/margins/min/max/padding/border): border boxes '
+            'align-items / align-content, flex-basis/grow/shrink/order/margins/min/max/padding/border, `float` on one '
+            'item in ten: it has no effect on flex and grid items): border boxes '
             'of the laid-out children and container height; non-trivial = at least two items or a flexing item')
         cases = [fx.gen_case(rng) for _ in range(run.n(2500, 24000))]
         hangs = 0          # layouts that did not come back (10 s of CPU each): after five the section stops
